@@ -195,10 +195,47 @@ pub fn rand_recs(rng: &mut Rng, lang: &str, n: usize, distinct_ratings: bool, co
     (0..n)
         .map(|i| {
             // one title in twenty is a long listing of 21-40 words (beyond the 20-slot match buffers)
-            let t = if rng.chance(1, 20) { long_title(rng, lang) } else { realistic_title(rng, lang, corpus) };
+            let t = match rng.below(20) {
+                0 => long_title(rng, lang),
+                1 | 2 => shaped_title(rng, lang),
+                _ => realistic_title(rng, lang, corpus),
+            };
             (100 + i * 3, t, ratings[i])
         })
         .collect()
+}
+
+/// Title shapes random generation rarely produces: repeated words, a last word that extends the
+/// first, equal halves, only very short words, a word next to its own first half.
+pub fn shaped_title(rng: &mut Rng, lang: &str) -> String {
+    let alpha = lower_alphabet(lang);
+    let v = vocab(lang);
+    let pickw = |rng: &mut Rng| -> String { if rng.chance(1, 2) { rng.pick(&v).to_string() } else { rand_word(rng, &alpha, 3, 8) } };
+    let w = pickw(rng);
+    let x = pickw(rng);
+    let sep = *rng.pick(&[" ", " ", "-", ", "]);
+    match rng.below(9) {
+        0 => format!("{w}{s}{w}{s}{w}", w = w, s = sep),
+        1 => format!("{w}{s}{x}{s}{w}", w = w, x = x, s = sep),
+        2 => format!("{w}{s}{x}{s}{w}{c}", w = w, x = x, s = sep, c = rng.pick(&alpha)),
+        3 => {
+            let h = rand_word(rng, &alpha, 2, 4);
+            format!("{h}{h}{s}{x}", h = h, x = x, s = sep)
+        }
+        4 => (0..rng.range(2, 5)).map(|_| rand_word(rng, &alpha, 1, 2)).collect::<Vec<_>>().join(sep),
+        5 => {
+            let cs: Vec<char> = w.chars().collect();
+            let k = (cs.len() / 2).max(1);
+            format!("{h}{s}{w}", h = cs[..k].iter().collect::<String>(), w = w, s = sep)
+        }
+        6 => {
+            // second word starts with the first word's last letter
+            let last = w.chars().last().unwrap_or('a');
+            format!("{w}{s}{l}{x}", w = w, l = last, x = x, s = sep)
+        }
+        7 => format!("{w}{suf}{s}{x}", w = rand_word(rng, &alpha, 3, 6), suf = rng.pick(&suffixes(lang)), x = x, s = sep),
+        _ => format!("{w}{s}{w}{suf}", w = w, s = sep, suf = rng.pick(&suffixes(lang))),
+    }
 }
 
 pub fn long_title(rng: &mut Rng, lang: &str) -> String {
@@ -320,4 +357,47 @@ pub const MARKERS: &[(&str, &str)] = &[
     ("\u{308}", "\u{301}"),
     ("<<", "<"),
     ("é", "e\u{301}"),
+    ("<span class=\"hl\">", "</span>"),
+    ("**", "**"),
+    ("<<<<<<<<<<<<<<<<<<<<<<<<<<<<<<<<<<<<<<<<<<<<<<<<<<<<<<<<<<<<<<<<", ">>>>>>>>>>>>>>>>>>>>>>>>>>>>>>>>>>>>>>>>>>>>>>>>>>>>>>>>>>>>>>>>"),
+    ("\u{e002}", "\u{e003}"),
+    ("𝐀", "😀"),
 ];
+
+/// Spread a small rating over the whole allowed range [0, 2^31): order-preserving, distinct stays distinct.
+pub fn scale_ratings(rng: &mut Rng, ratings: &mut Vec<usize>) {
+    let max = ratings.iter().cloned().max().unwrap_or(0) + 1;
+    match rng.below(5) {
+        0 => {
+            let f = ((1usize << 31) - 1) / max;
+            for r in ratings.iter_mut() {
+                *r *= f;
+            }
+        }
+        1 => {
+            for r in ratings.iter_mut() {
+                *r = *r * 65536 + 1;
+            }
+        }
+        2 => {
+            let base = (1usize << 31) - 1 - max;
+            for r in ratings.iter_mut() {
+                *r += base;
+            }
+        }
+        _ => {}
+    }
+}
+
+/// Inflectional endings the Snowball stemmers strip (some with accents), to glue onto random stems.
+pub fn suffixes(lang: &str) -> Vec<&'static str> {
+    match lang {
+        "en" => vec!["ing", "ed", "es", "s", "ly", "ness", "ation", "ies"],
+        "de" => vec!["en", "er", "ung", "ungen", "chen", "lich", "ös", "ünde"],
+        "es" => vec!["ción", "ciones", "ando", "os", "ía", "és", "mente"],
+        "fr" => vec!["é", "ée", "ées", "ère", "ement", "es", "ât", "ions"],
+        "pt" => vec!["ção", "ções", "mente", "os", "ável", "ês", "ão"],
+        "ru" => vec!["ами", "ов", "ём", "ёт", "ой", "ая", "ого", "ить"],
+        _ => vec!["ing", "s"],
+    }
+}
